@@ -26,6 +26,7 @@ import json
 import os
 
 from analysis import facts as F
+from analysis.cfg import PathFlow, Automaton
 from analysis.e4 import E4
 from analysis.interp import Int, Enum, Bool
 from analysis.bits import BV, Interp, CellRef, bf_from_fn, bf_table, Undecided, TOP
@@ -262,6 +263,20 @@ def accept_rule(ctx, facts, cfg, pol):
         stores = [(bi, s) for bi, b in F.blocks(of) for s in b['stmts'] if s['k'] == 'assign' and F.last_field(s['place']) and F.last_field(s['place'])[0] == DS]
         ok = bool(safe) and bool(stores) and all(safe[0] in dom.get(bi, ()) or safe[0] == bi for bi, s in stores)
         fact('at most one OPT', ok, 'every store of parse_opt is dominated by the `edns_end.is_some() -> error` test', POPT, of['at'])
+        # ... and the flag that test reads is raised on every successful path, so that a later OPT meets it
+        class _FlagAu(Automaton):
+            init = False
+
+            def on_stmt(self_, q, f_, bi_, s_, env_):
+                if s_['k'] == 'assign' and F.last_field(s_['place']) == (DS, 'edns_end'):
+                    e_ = F.expr_rv(f_, F.single_defs(f_), s_['rv'])
+                    return e_[0] == 'agg' and e_[1] == 'std::option::Option' and e_[2] == 'Some'
+                return q
+        flow_ = PathFlow(facts, _FlagAu())
+        exits_ = flow_.summary(POPT, _FlagAu.init)
+        oks_ = [(q_, k_) for (q_, k_) in exits_ if k_ == 'Ok']
+        bad_ = [(q_, k_) for (q_, k_) in oks_ if not q_]
+        fact('at most one OPT (flag raised)', bool(oks_) and not bad_, 'every successful path of parse_opt stores edns_end = Some(..), the flag its "only one OPT" test reads (%d Ok exit state(s))' % len(oks_), POPT, of['at'])
     # ---- QR gating: hypothesis run ---------------------------------------------------------
     e4h = E4(facts, probes=[('DNSSector::parse_rr', PARSE)], force_ret={'DNSSector::is_response': False})
     e4h.summarize(PARSE)
